@@ -283,8 +283,10 @@ def eval_retarget(col, case):
         col.fail(_retarget_signature(fn, v[0]), case, v[1])
 
 
-def _retarget_verdict(fn, x, T, rows, lens, exp, is_flat, src, dst):
-    """the retarget contract on one prepared source x: None when it holds, else (failure class, message)"""
+def _retarget_verdict(fn, x, T, rows, lens, exp, is_flat, src, dst, text_source=False):
+    """the retarget contract on one prepared source x: None when it holds, else (failure class, message).
+    text_source: x is plain text (base-encoded / bytes), so the first sentence of the property applies as well:
+    the call must succeed when every character is in the target alphabet"""
     import bionumpy as bnp
     talpha = spec_alphabet(dst)
     try:
@@ -295,7 +297,7 @@ def _retarget_verdict(fn, x, T, rows, lens, exp, is_flat, src, dst):
         else:
             r = bnp.change_encoding(x, T)
     except Exception as e:
-        if fn == "change_encoding":
+        if fn == "change_encoding" or text_source:
             inside = talpha is None or all_valid([b for r_ in rows for b in r_], talpha)
             if inside:
                 return ("raises-although-text-in-target-alphabet:%s" % type(e).__name__,
@@ -317,7 +319,7 @@ def _retarget_verdict(fn, x, T, rows, lens, exp, is_flat, src, dst):
 
 
 def _retarget_signature(fn, cls):
-    if cls.startswith("raises-although-text-in-target-alphabet:"):
+    if cls.startswith("raises-although-text-in-target-alphabet:") and fn == "change_encoding":
         return "change_encoding:" + cls
     return "retarget:%s:%s" % (fn, cls)
 
@@ -370,6 +372,15 @@ def eval_retarget_other(col, case):
 
 
 # ----------------------------------------------------------------------------------------------- contract: retarget on views
+TEXT_SOURCES = ("Base", "Bytes")       # base-encoded arrays and plain uint8 (ragged) arrays: text, not yet alphabet-encoded
+
+
+def _read_source(a, src, is_flat):
+    if src == "Bytes":
+        return [s_of(a.tolist())] if is_flat else [s_of(r) for r in a.tolist()]
+    return [a.to_string()] if is_flat else a.tolist()
+
+
 def _subscript(step):
     import numpy as np
     spec = step["rows"]
@@ -395,9 +406,12 @@ def build_source(src, rows, is_flat):
     """a freshly built, contiguous array with encoding `src` holding `rows` (one flat row when is_flat)"""
     import numpy as np
     import bionumpy as bnp
+    from npstructures import RaggedArray
     from bionumpy.encoded_array import EncodedArray, EncodedRaggedArray, BaseEncoding
-    if src == "Base":
+    if src in TEXT_SOURCES:
         flat = np.array([b for r in rows for b in r], dtype=np.uint8)
+        if src == "Bytes":
+            return flat if is_flat else RaggedArray(flat, [len(r) for r in rows])
         if is_flat:
             return EncodedArray(flat, BaseEncoding)
         return EncodedRaggedArray(EncodedArray(flat, BaseEncoding), [len(r) for r in rows])
@@ -423,8 +437,8 @@ def _source_probe(src, big, steps, is_flat, source_text):
     if key not in _PROBE:
         if len(_PROBE) > 20000:
             _PROBE.clear()
-        read = (lambda a: [a.to_string()]) if is_flat else (lambda a: a.tolist())
-        full = [s_of(r) if src == "Base" else expected_text(r) for r in big]
+        read = lambda a: _read_source(a, src, is_flat)
+        full = [s_of(r) if src in TEXT_SOURCES else expected_text(r) for r in big]
         try:
             if read(build_source(src, big, is_flat)) != full:
                 res = "source"
@@ -447,9 +461,10 @@ def eval_retarget_view(col, case):
     rows = [apply_view_flat(big[0], steps)] if is_flat else apply_view(big, steps)
     lens = [len(r) for r in rows]
     # base-encoded text keeps its case unless the target is an alphabet encoding (the encode contract: upper-cased)
-    keeps_case = src == "Base" and spec_alphabet(dst) is None
+    is_text = src in TEXT_SOURCES
+    keeps_case = is_text and spec_alphabet(dst) is None
     exp = [s_of(r) if keeps_case else expected_text(r) for r in rows]
-    probe = _source_probe(src, big, steps, is_flat, [s_of(r) if src == "Base" else expected_text(r) for r in rows])
+    probe = _source_probe(src, big, steps, is_flat, [s_of(r) if is_text else expected_text(r) for r in rows])
     if probe == "source":
         return          # as in eval_retarget: reported by the encode contract
     if probe != "ok":
@@ -461,17 +476,17 @@ def eval_retarget_view(col, case):
     col.case(case, nontrivial=sum(lens) > 0 and (pending or is_flat),
              contract="retarget-view:%s:%s" % (fn, "flat-strided" if is_flat else "ragged-unflattened" if pending
                                                else "ragged-already-contiguous"))
-    v = _retarget_verdict(fn, x, T, rows, lens, exp, is_flat, src, dst)
+    v = _retarget_verdict(fn, x, T, rows, lens, exp, is_flat, src, dst, is_text)
     if v is None:
         return
     # is it the view?  the same text, freshly built and contiguous
     plain = {"k": "retarget", "src": src, "dst": dst, "fn": fn}
     plain["data" if is_flat else "rows"] = rows[0] if is_flat else rows
-    c = _safe_verdict(fn, build_source(src, rows, is_flat), T, rows, lens, exp, is_flat, src, dst)
+    c = _safe_verdict(fn, build_source(src, rows, is_flat), T, rows, lens, exp, is_flat, src, dst, is_text)
     if c is not None:
         # not specific to views: the plain class, and the plain case when eval_retarget expects the same text for it
-        same_exp = not keeps_case or all(not is_letter_lower(b) for r in rows for b in r)
-        col.fail(_retarget_signature(fn, c[0]), plain if same_exp else case, c[1])
+        same = src != "Bytes" and (not keeps_case or all(not is_letter_lower(b) for r in rows for b in r))
+        col.fail(_retarget_signature(fn, c[0]), plain if same else case, c[1])
         return
     cls = v[0]
     if cls.startswith(("rows-changed", "different-letters")):
@@ -817,6 +832,167 @@ def gen_retarget(tier):
             yield {"k": "retarget_other", "src": "string", "dst": dst, "fn": fn, "labels": ["C", "A", "T"], "texts": ["A", "C", "T", "A"]}
 
 
+# big arrays to index into: row lengths, unequal, with empty rows at the start / middle / end / adjacent
+VIEW_SHAPES = [(2, 0, 3, 1, 4, 1, 0, 2), (0, 1, 5, 2, 0, 3), (3, 1, 0, 0, 2, 6, 1), (1, 2, 3, 4, 5, 6),
+               (0, 0, 2, 1), (4, 0, 1), (2, 2, 0, 2, 2, 1), (6, 5, 4, 3, 2, 1, 0), (1, 0, 1, 0, 1, 0, 3), (3, 0)]
+
+
+def _st(rows, cols=None):
+    return {"rows": rows, "cols": cols}
+
+
+def standard_views(n, tier):
+    """named views of an n-row array (n >= 2): every kind of the earlier indexing step, alone, combined with a column
+    trim, and chained; the selections keep 2..6 rows where n allows (plus, thorough, 0- and 1-row selections)"""
+    order = [n - 1, 0, 0, n // 2, 1][:max(2, min(5, n + 1))]             # reorders and repeats
+    order2 = [1, n - 1, 1, 0, (n + 1) // 2, n - 1][:max(2, min(6, n + 1))]
+    mask = [1 if i % 3 != 1 else 0 for i in range(n)] if n > 2 else [1, 1]
+    if sum(mask) > 6:
+        mask = mask[:8] + [0] * (n - 8)
+    inner = ["slice", 1, n - 1, None] if n >= 4 else ["slice", 1, None, None] if n == 3 else ["slice", 0, 2, None]
+    rev = ["slice", None, None, -1]
+    out = [
+        ("rev", [_st(rev)]),
+        ("slice", [_st(inner)]),
+        ("step2", [_st(["slice", None, None, 2])]),
+        ("list", [_st(["list", order])]),
+        ("array", [_st(["array", order2])]),
+        ("mask", [_st(["mask", mask])]),
+        ("cols1:", [_st(["all"], [1, None])]),
+        ("cols:-1", [_st(["all"], [None, -1])]),
+        ("rev,cols1:", [_st(rev, [1, None])]),
+        ("list,cols:-1", [_st(["list", order], [None, -1])]),
+        ("rev>slice", [_st(rev), _st(["slice", 1, None, None])]),
+        ("cols1:>list", [_st(["all"], [1, None]), _st(["list", order])]),
+    ]
+    if tier == "thorough":
+        comp = [1 - m for m in mask] if n - sum(mask) >= 1 else mask
+        out += [
+            ("tail", [_st(["slice", 1, None, None])]),
+            ("head", [_st(["slice", None, -1, None])]),
+            ("odd", [_st(["slice", 1, None, 2])]),
+            ("rev2", [_st(["slice", None, None, -2])]),
+            ("neglist", [_st(["list", [-1, -2, 0]])]),
+            ("mask-complement", [_st(["mask", comp])]),
+            ("cols1:-1", [_st(["all"], [1, -1])]),
+            ("cols:2", [_st(["all"], [None, 2])]),
+            ("cols-2:", [_st(["all"], [-2, None])]),
+            ("slice,cols1:", [_st(inner, [1, None])]),
+            ("mask,cols1:", [_st(["mask", mask], [1, None])]),
+            ("array,cols:2", [_st(["array", order2], [None, 2])]),
+            ("list>step2", [_st(["list", order]), _st(["slice", None, None, 2])]),
+            ("mask>rev", [_st(["mask", mask]), _st(rev)]),
+            ("step2>cols1:", [_st(["slice", None, None, 2]), _st(["all"], [1, None])]),
+            ("rev>list>slice", [_st(rev), _st(["list", order]), _st(["slice", 1, None, None])]),
+            ("none-list", [_st(["list", []])]),
+            ("none-slice", [_st(["slice", 1, 1, None])]),
+            ("one", [_st(["slice", n - 1, None, None])]),
+        ]
+    return out
+
+
+def exhaustive_views(n, maxlen):
+    """every slice / mask / short index list / column trim of an n-row array whose longest row has maxlen elements"""
+    bounds = [None] + list(range(0, n + 1)) + [-1, -2]
+    for a in bounds:
+        for b in bounds:
+            for step in (None, 2, -1, -2):
+                yield [_st(["slice", a, b, step])]
+    for m in itertools.product((0, 1), repeat=n):
+        yield [_st(["mask", list(m)])]
+    for k in (1, 2, 3):
+        for idx in itertools.product(range(n), repeat=k):
+            yield [_st(["list" if (sum(idx) + k) % 2 else "array", list(idx)])]
+    cb = [None] + list(range(0, maxlen + 1)) + [-1, -2]
+    for c0 in cb:
+        for c1 in cb:
+            for rows in (["all"], ["slice", None, None, -1], ["list", [n - 1, 0, 0, 1]], ["mask", [1, 0] * (n // 2) + [1] * (n % 2)]):
+                yield [_st(rows, [c0, c1])]
+
+
+FLAT_VIEWS = [[_st(["slice", None, None, -1])], [_st(["slice", 1, -1, None])], [_st(["slice", None, None, 2])],
+              [_st(["list", [6, 0, 0, 3, 1]])], [_st(["array", [1, 6, 1, 0]])], [_st(["mask", [1, 0, 1, 1, 0, 0, 1]])],
+              [_st(["slice", None, None, -1]), _st(["slice", 1, None, 2])]]
+
+
+def view_contents(src, dst, fn):
+    """letters to fill the big array with: [(letters, lower_mode)], chosen so that the operation is defined (succeeds)
+    where some text allows it, plus the full source alphabet (the call may then raise)"""
+    if src in TEXT_SOURCES:
+        letters = alphabet_bytes(spec_alphabet(dst) or "ACGTN")
+        return [(letters, 1 if spec_alphabet(dst) else 0)]
+    sa = alphabet_bytes(ALPHABETS[src])
+    ta = spec_alphabet(dst)
+    if ta is None:
+        return [(sa, 0)]
+    tb = alphabet_bytes(ta)
+    if fn == "as_encoded_array":        # defined on a common prefix of the two alphabets
+        k = 0
+        while k < min(len(sa), len(tb)) and sa[k] == tb[k]:
+            k += 1
+        sel = sa[:k]
+    else:                               # change_encoding: defined on the common letters
+        sel = [b for b in sa if b in tb]
+    out = [(sel, 0)] if sel else []
+    if sel != sa:
+        out.append((sa, 0))
+    return out
+
+
+VIEW_SOURCES = ENC_NAMES + ["Base", "Bytes"]
+VIEW_TARGETS = ENC_NAMES + ["Base"]
+# (source, target, function): one per function, each defined for the whole text used
+VIEW_REPRESENTATIVES = [("ACGTEncoding", "ACTGnEncoding", "change_encoding"), ("ACGTEncoding", "ACGTnEncoding", "as_encoded_array"),
+                        ("Base", "AminoAcidEncoding", "encode"), ("ACGTnEncoding", "Base", "change_encoding"),
+                        ("Bytes", "ACGTnEncoding", "encode")]
+
+
+def view_fns(src, dst):
+    if src == "Bytes":                  # a uint8 RaggedArray / ndarray view as the text to encode
+        return ("encode",) if dst != "Base" else ()
+    if src == "Base":
+        return ("as_encoded_array", "encode", "change_encoding") if dst != "Base" else ("change_encoding",)
+    if dst == src:
+        return ("change_encoding",)     # as_encoded_array returns its argument, encode refuses non-base input
+    return ("as_encoded_array", "change_encoding")
+
+
+def gen_views(tier):
+    # ---- 4b. re-targeting sources that are not-yet-flattened views left by an earlier indexing step
+    thorough = tier == "thorough"
+    # (i) every ordered pair of alphabets (+ the base encoding on either side) x a family of big arrays x every kind of view
+    shapes = VIEW_SHAPES if thorough else VIEW_SHAPES[:4]
+    for src in VIEW_SOURCES:
+        for dst in VIEW_TARGETS:
+            for fn in view_fns(src, dst):
+                for ci, (letters, lm) in enumerate(view_contents(src, dst, fn)):
+                    for si, lens in enumerate(shapes):
+                        if ci > 0 and not thorough and si > 0:
+                            continue            # quick: the content on which the call may raise on one shape only
+                        for off in ((0, 1) if thorough and len(letters) > 1 else (0,)):
+                            big = fill(lens, letters, off, lm)
+                            for _, view in standard_views(len(lens), tier):
+                                yield {"k": "retarget_view", "src": src, "dst": dst, "fn": fn, "big": big, "view": view}
+                    flat = fill((7,), letters, 0, lm)[0]
+                    for view in FLAT_VIEWS:
+                        yield {"k": "retarget_view", "src": src, "dst": dst, "fn": fn, "bigdata": flat, "view": view}
+    # (ii) one pair per function x EVERY big array of 2..N rows of length 0..L x every kind of view
+    for src, dst, fn in VIEW_REPRESENTATIVES:
+        letters, lm = view_contents(src, dst, fn)[0]
+        for n, L in (((2, 3), (3, 3), (4, 3), (5, 3), (6, 2)) if thorough else ((2, 2), (3, 2), (4, 2))):
+            for lens in itertools.product(range(L + 1), repeat=n):
+                big = fill(lens, letters, 0, lm)
+                for _, view in standard_views(n, tier):
+                    yield {"k": "retarget_view", "src": src, "dst": dst, "fn": fn, "big": big, "view": view}
+    # (iii) one pair per function x two big arrays x EVERY slice / mask / index list (<= 3) / column trim
+    for src, dst, fn in VIEW_REPRESENTATIVES:
+        letters, lm = view_contents(src, dst, fn)[0]
+        for lens in ((2, 0, 3, 1, 0, 4), (0, 2, 1, 3)) if thorough else ((2, 0, 3, 1),):
+            big = fill(lens, letters, 0, lm)
+            for view in exhaustive_views(len(lens), max(lens)):
+                yield {"k": "retarget_view", "src": src, "dst": dst, "fn": fn, "big": big, "view": view}
+
+
 def gen_numeric(tier):
     # ---- 5. numeric offset encodings
     for name, lo in NUMERIC.items():
@@ -835,7 +1011,7 @@ def gen_numeric(tier):
 
 def gen_cases(tier, rng=None):
     """order: cheap and defect-prone parts first, so that a cut by the time budget loses the least"""
-    for g in (gen_bytes, gen_numeric, gen_retarget, gen_strings, gen_lists):
+    for g in (gen_bytes, gen_numeric, gen_retarget, gen_views, gen_strings, gen_lists):
         yield from g(tier)
 
 
